@@ -15,6 +15,7 @@ PROP = 'C18'
 H_RDMA = 'From VLib Require Import Akita.\nFrom VMem Require Import Rdma.\nOpen Scope N_scope.\n'
 H_DRV = ('From Coq Require Import List NArith ZArith.\nImport ListNotations.\n'
          'From VDrv Require Import Distribute.\nOpen Scope N_scope.\n')
+H_ROUTE = 'From VLib Require Import Akita.\nFrom VSys Require Import Routing.\nOpen Scope N_scope.\n'
 COQ_TARGETS = ['props/C18.vo']
 P_RI, P_RO, P_DI, P_DO, P_CT = 1, 2, 3, 4, 5
 BASE_IN, BASE_OUT = 1000000, 2000000
@@ -271,6 +272,19 @@ def monitor_split(c):
     return None
 
 
+def monitor_route(c):
+    """every sampled address of device k's driver range (except its last page, C10 finding e)
+    must be routed by GPU g's RDMA address table to a port of device k"""
+    for dev, addr, code, last in c['probes']:
+        if last:
+            continue
+        if code != 1000 + dev:
+            to = 'nowhere (lookup panics)' if code == 0 else ('the CPU' if code == 1000 else 'GPU %d' % (code - 1000))
+            return ('%s platform with %d GPUs: the RDMA address table of GPU %d sends address 0x%x, which the driver assigns to GPU %d, to %s; table owners %s'
+                    % (c['gputype'], c['num_gpus'], c['gpu'], addr, dev, to, c['mods']))
+    return None
+
+
 # ------------------------------------------------------------------ harness drivers
 
 def run_harness(binary, mode, cases=None, seed=1, n=100, extra=()):
@@ -292,7 +306,15 @@ def run_harness(binary, mode, cases=None, seed=1, n=100, extra=()):
 # ------------------------------------------------------------------ whole runs (validation)
 
 SAMPLES = ['fir', 'matrixtranspose', 'atax', 'relu']
-WORKLOADS = [('fir', ['-length=1024']), ('matrixtranspose', ['-width=128']), ('atax', ['-x=64', '-y=64'])]
+# sizes are chosen so that every GPU of the set owns pages of the distributed buffers (a buffer of
+# fewer pages than GPUs lives on the first GPUs only and the others are never addressed remotely)
+WORKLOADS = [('fir', ['-length=4096']), ('matrixtranspose', ['-width=128']), ('atax', ['-x=64', '-y=64'])]
+# discrete 3- and 4-GPU timing runs, every tier: remote accesses to every GPU through the RDMA address
+# table and the PCIe fabric as timingconfig builds them (fir needs length % numGPUs == 0)
+MULTI_GPU_TIMING = [('fir', ['-length=3072', '-gpus=1,2,3', '-timing']),
+                    ('fir', ['-length=4096', '-gpus=1,2,3,4', '-timing']),
+                    ('matrixtranspose', ['-width=256', '-gpus=1,2,3,4', '-timing']),
+                    ('atax', ['-x=128', '-y=128', '-gpus=1,2,3', '-timing'])]
 GPUSETS_QUICK = [['-gpus=1'], ['-gpus=1,2'], ['-unified-gpus=1,2']]
 # the runner sizes the platform by the last ID of the list: GPU lists must be ascending
 GPUSETS_THOROUGH = [['-gpus=2'], ['-unified-gpus=1,2,3,4']]
@@ -338,13 +360,15 @@ def whole_runs(bindir, thorough):
         for g in sets:
             for mode in ([], ['-timing']):
                 jobs.append((bindir, name, opts + g + mode, 120))
+    for name, opts in MULTI_GPU_TIMING:
+        jobs.append((bindir, name, opts, 45))
     if thorough:
         jobs.append((bindir, 'fir', ['-length=4096', '-gpus=1,2', '-timing'], 300))
         jobs.append((bindir, 'matrixtranspose', ['-width=256', '-gpus=1,2,3,4'], 300))
         jobs.append((bindir, 'atax', ['-x=128', '-y=128', '-unified-gpus=1,2,3,4'], 300))
         jobs.append((bindir, 'fir', ['-length=4096', '-gpus=1,2,3,4'], 300))
         jobs.append((bindir, 'atax', ['-x=64', '-y=64', '-gpus=1,2,3,4'], 300))
-    with ThreadPoolExecutor(max_workers=6) as ex:
+    with ThreadPoolExecutor(max_workers=8) as ex:
         return list(ex.map(one_run, jobs))
 
 
@@ -397,7 +421,7 @@ def main(argv):
             rep.obligation('theorem ' + name + (' [axioms: %s]' % ', '.join(axioms) if axioms else ' [closed under the global context]'), True)
 
         # ---- run the implementation
-        dcases, scases = [], []
+        dcases, scases, rcases = [], [], []
         if replay_file:
             obj = json.load(open(replay_file))
             kind = obj.get('kind', 'rdma')
@@ -430,6 +454,8 @@ def main(argv):
             gen, log = run_harness(binary, 'rdma', seed=vlib.seed(), n=n_rdma)
             gd, log2 = run_harness(binary, 'dist', seed=vlib.seed(), n=n_drv)
             gs, log3 = run_harness(binary, 'split', seed=vlib.seed(), n=n_drv)
+            rcases, log4 = run_harness(binary, 'route')
+            rcases = rcases or []
             if gen is None or gd is None or gs is None:
                 rep.obligation('harness run', False)
                 rep.violation({'broken': 'harness run failed', 'log': (log + log2 + log3)[-4000:]}, nofail=True)
@@ -448,6 +474,7 @@ def main(argv):
         bad = [(i, m) for i, m in ((i, monitor(c)) for i, c in enumerate(cases)) if m]
         dbad = [(i, m) for i, m in ((i, monitor_dist(c)) for i, c in enumerate(dcases)) if m]
         sbad = [(i, m) for i, m in ((i, monitor_split(c)) for i, c in enumerate(scases)) if m]
+        rbad = [(i, m) for i, m in ((i, monitor_route(c)) for i, c in enumerate(rcases)) if m]
 
         # ---- correspondence with the models
         okc, mism, clog = vlib.eval_cases(PROP, H_RDMA, [c['coq'] for c in cases], shard_size=20) if cases else (True, [], '')
@@ -456,6 +483,9 @@ def main(argv):
         rep.obligation('correspondence: %d Distribute calls evaluated by the model' % len(dcases), okd and not dmism)
         oks, smism, slog = vlib.eval_cases(PROP, H_DRV, [c['coq'] for c in scases], shard_size=80, checker='Tie.smismatches') if scases else (True, [], '')
         rep.obligation('correspondence: %d unified launches (table + filters) evaluated by the model' % len(scases), oks and not smism)
+
+        okr, rmism, rlog = vlib.eval_cases(PROP, H_ROUTE, [c['coq'] for c in rcases], shard_size=80, checker='rmismatches') if rcases else (True, [], '')
+        rep.obligation('correspondence: RDMA address tables of %d GPUs in timing platforms built by timingconfig (1-4 GPUs, r9nano and mi300a) equal the modelled table' % len(rcases), (bool(rcases) or bool(replay_file)) and okr and not rmism)
 
         # ---- whole runs
         runs = []
@@ -473,9 +503,9 @@ def main(argv):
                 hang = 'does not terminate: a MemCopy command whose FlushReq to a busy GPU returns after its copy responses is never dequeued (driver memorycopy.go processFlushReturn)'
                 witnesses = [
                     ('timing-discrete-3gpu-hang', 'timeout', 'fir -length=1024 -gpus=1,2,3,4 -timing ' + hang,
-                     (bindir, 'fir', ['-length=1024', '-gpus=1,2,3,4', '-timing'], 25)),
+                     (bindir, 'fir', ['-length=1024', '-gpus=1,2,3,4', '-timing'], 45)),
                     ('timing-discrete-3gpu-hang', 'timeout', 'relu -length=128 -gpus=1,2 -timing ' + hang,
-                     (bindir, 'relu', ['-length=128', '-gpus=1,2', '-timing'], 25)),
+                     (bindir, 'relu', ['-length=128', '-gpus=1,2', '-timing'], 45)),
                     ('matrixtranspose-wg-column-remainder', 'verify_failed',
                      'matrixtranspose -width=64 -gpus=1,2 -verify fails: the benchmark gives each GPU numWGWidth/numGPUs work-group '
                      'columns and drops the remainder (here 1/2 = 0 columns); widths with (width/64) % numGPUs == 0 pass',
@@ -517,12 +547,13 @@ def main(argv):
         'rdma_crashes_observed': sum(1 for c in cases if any(e.get('crash') for e in c['events'])),
         'distribute_cases': len(dcases), 'distribute_panics': sum(1 for c in dcases if c['panic']),
         'distribute_fewer_pages_than_gpus': sum(1 for c in dcases if not c['panic'] and c['bytes'] and ((c['bytes'] - 1) >> c['log2ps']) + 1 < len(c['gpus'])),
+        'routing_tables_checked': len(rcases), 'routing_probes': sum(len(c['probes']) for c in rcases),
         'split_cases': len(scases), 'split_exhaustive': sum(1 for c in scases if c.get('exhaustive')),
         'split_workgroups_filtered': sum(c.get('total_wg', 0) for c in scases if c.get('exhaustive')),
         'whole_run_teardown_race_retries': sum(r.get('teardown_race_retries', 0) for r in runs),
         'whole_runs': [{'cmd': ' '.join(r['cmd']), 'passed': r['passed'], 'wall_s': r['wall_s']} for r in runs],
-        'model_mismatches': len(mism) + len(dmism) + len(smism),
-        'monitor_failures': len(bad) + len(dbad) + len(sbad) + len(run_fail),
+        'model_mismatches': len(mism) + len(dmism) + len(smism) + len(rmism),
+        'monitor_failures': len(bad) + len(dbad) + len(sbad) + len(rbad) + len(run_fail),
     })
     rep.samples = [{'buf': c['buf'], 'w': c['w'], 'events': [(e['e'], e.get('port'), (e.get('msg') or {}).get('id')) for e in c['events'][:20]]} for c in cases[:2]]
 
@@ -532,7 +563,7 @@ def main(argv):
         out, _ = run_harness(binary, 'rdma', cases=[strip(c)])
         return bool(out) and env_ok(out[0]) and monitor(out[0]) is not None
 
-    if not bad and not dbad and not sbad and not run_fail and (mism or not okc) and not replay_file:
+    if not bad and not dbad and not sbad and not rbad and not run_fail and (mism or not okc) and not replay_file:
         # the model and the engine part ways: look harder for a history on which the
         # engine itself breaks the property (more seeds, control back-pressure and
         # hostile streams emphasised)
@@ -562,6 +593,9 @@ def main(argv):
     elif sbad:
         i, msg = sbad[0]
         rep.violation({'property': PROP, 'kind': 'split', 'what': msg, 'case': scases[i], 'replay_cmd': './check C18 --replay <this file>'}, text=msg)
+    elif rbad:
+        i, msg = rbad[0]
+        rep.violation({'property': PROP, 'kind': 'route', 'what': msg, 'case': rcases[i], 'replay_cmd': './check C18 (the routing check is deterministic and runs on every check)'}, text=msg)
     elif run_fail:
         r = run_fail[0]
         rep.violation({'property': PROP, 'kind': 'run', 'what': 'whole run does not pass -verify (or hangs)', 'case': r,
@@ -585,6 +619,10 @@ def main(argv):
                        'distributeWGToGPUs / WGFilter; theorem gpu_split_partition no longer speaks about this code',
                        'case': scases[i] if scases else None, 'log': slog[-2000:]}, nofail=True,
                       text='model/implementation mismatch at split case %d; monitor passes on %d cases' % (i, len(scases)))
+    if not rep.violations and (rmism or not okr or (not rcases and not replay_file)):
+        rep.violation({'property': PROP, 'kind': 'route', 'broken': 'the RDMA address table built by timingconfig is not [CPU, GPU 1, ..., GPU n] any more (or the routing harness failed); theorem routing_table_correct no longer speaks about this platform',
+                       'case': rcases[rmism[0][0]] if rmism else None, 'log': rlog[-2000:]}, nofail=True,
+                      text='RDMA address table differs from the modelled table')
     return rep.finish()
 
 
